@@ -64,6 +64,8 @@ def draw_credit(rng, count):
     x = rng.random()
     if x < 0.25:
         return MAX_N, ('refill', MAX_N, 0)
+    if x < 0.33:
+        return rng.choice([1, 2]), ('burst', tuple(rng.choice([1, 2, 3]) for _ in range(rng.choice([2, 3, 4]))), 0)
     if x < 0.4:
         return max(1, count + rng.choice([-1, 0, 1])), ('refill', rng.choice([1, 2, 5]), 0)
     if x < 0.8:
